@@ -2,12 +2,13 @@
 implementation, executable oracle, Lean targets and the theorems that must be audited."""
 import os, random
 from vcommon import Case
+import vcommon as V
 import gen_graph, oracle_graph
 
 
 # ----------------------------------------------------------------------------- graph (C10, C11)
 def gen_graph_cases(rng, tier, seed):
-    n = 600 if tier == "quick" else 15000
+    n = 600 * V.depth_factor() if tier == "quick" else 15000
     cases, agg = [], {}
     for i in range(n):
         r = random.Random(rng.getrandbits(48))
@@ -76,7 +77,7 @@ import gen_build as GB, oracle_build as OB
 def build_stream(gens, nq, nt):
     """gens: list of (name, generator(rng) -> body | (body, meta), weight)"""
     def generate(rng, tier, seed):
-        n = int(os.environ["VERIF_SOAK_N"]) if tier == "soak" else (nq if tier == "quick" else nt)
+        n = int(os.environ["VERIF_SOAK_N"]) if tier == "soak" else (nq * V.depth_factor() if tier == "quick" else nt)
         cases, agg = [], {}
         names = [g[0] for g in gens for _ in range(g[2])]
         fns = {g[0]: g[1] for g in gens}
@@ -285,7 +286,7 @@ import gen_lib as GL
 def lib_stream(kind, fixed, gen, nq, nt):
     def generate(rng, tier, seed):
         cases = [Case(kind, f"fixed{i}", b) for i, b in enumerate(fixed)]
-        n = int(os.environ["VERIF_SOAK_N"]) if tier == "soak" else (nq if tier == "quick" else nt)
+        n = int(os.environ["VERIF_SOAK_N"]) if tier == "soak" else (nq * V.depth_factor() if tier == "quick" else nt)
         for i in range(n):
             cases.append(Case(kind, f"{kind}-{seed}-{i}", gen(random.Random(rng.getrandbits(48)))))
         return cases, dict(fixed_cases=len(fixed), random_cases=n)
